@@ -37,6 +37,12 @@ impl<'a> SendTransactionsProofProcess<'a> {
 
     pub(crate) fn execute(self) -> Status {
         let status = self.execute_internally();
+        if !status.is_ok() {
+            // The answer is rejected: let the requested transactions be fetched again from another peer.
+            self.protocol
+                .peers()
+                .mark_fetching_txs_timeout(self.peer_index);
+        }
         self.protocol
             .peers()
             .update_txs_proof_request(self.peer_index, None);
